@@ -9,6 +9,7 @@
 """
 from __future__ import annotations
 import os
+import re
 from .. import common, docs, concretise, project, impl, tracecheck, corpus
 
 RULE = ("TreeEq(project(loads(t)), project(loads(dumps(loads(t))))) decided by spec/TraceRoundTrip.tla (allowances: "
@@ -42,7 +43,7 @@ def mark(v, itn, quote):
             mark(e, itn, quote)
     elif v["t"] == "str":
         s = itn.strs[v["id"] - 1]
-        v["q"] = quote in s
+        v["q"] = re.search(r"(?<!\\)" + re.escape(quote), s) is not None      # an *unescaped* output quote
         v["lk"] = looks_like(s)
     return v
 
